@@ -17,6 +17,11 @@ holding the mutex, remove by address, plain receive in Accept).  Same variables 
    server connection over an in-memory conn, waits for process quiescence after every event (all
    goroutines parked -- no timers, no network -- so a pending call is a hang, and the goroutine dump says
    where), judges the property on what the real code did, and compares with the model's prediction.
+3c. spec/SSHForwardBacklog.tla: the bounded queues mux.loop -> incomingChannels -> handleChannelOpens -> handler channel ->
+   forward() -> listener slot and the multi-step Close (remove, cancel request, await reply through the same read loop) per
+   listener kind; TLC (scaled capacities): one listener -- Close always returns; two -- a stuck Close has removed its entry;
+   swapped unix order (cancel before remove) deadlocks; histories generated at the real capacities (2 x 20, 1 x 40 opens,
+   nobody in Accept, Close in every order) replayed on the real client (TestBacklog).
 4. A concurrent stress run (no settling; opens, Accepts and Closes race on 4 Ps) judged by the property."""
 import json, os, re, threading
 import vlib
@@ -52,7 +57,7 @@ def _proj(c):
 def _parallel(jobs):
     """jobs: list of (key, thunk); run thunks in threads; re-raise the first failure."""
     res, errs = {}, []
-    sem = threading.Semaphore(6)
+    sem = threading.Semaphore(8)
     def work(k, f):
         try:
             with sem:
@@ -133,6 +138,25 @@ def run(ctx):
                  ("SSHForward_MC", "SSHForward_GenThree.cfg", dict(MaxHist=4)),
                  ("SSHForward_Old_MC", "SSHForward_Old_GenStuckMix.cfg", dict(MaxHist=4))]
         sims.append(("SSHForward_GenSim.cfg", 300))
+    # ---- backlog model (bounded queues between mux.loop and the listeners; multi-step Close per listener kind)
+    B = "SSHForwardBacklog_MC"
+    bk_hold = ["SSHForwardBacklog_OneTcp.cfg", "SSHForwardBacklog_OneUnix.cfg"]
+    for cfg in bk_hold:
+        jobs.append(("bk:" + cfg, lambda cfg=cfg: ctx.tlc_must_hold(B, cfg=cfg, workers=4, timeout=900, note="backlog model, one listener: Close returns (invariant + liveness)", **SMALL)))
+    for cfg in (["SSHForwardBacklog_TwoMix.cfg"] if q else ["SSHForwardBacklog_TwoTcp.cfg", "SSHForwardBacklog_TwoMix.cfg", "SSHForwardBacklog_TwoUnix.cfg"]):
+        kw = dict(cfg_text=_cfg(cfg, MaxPer=2)) if q else dict(cfg=cfg)
+        jobs.append(("bk:" + cfg, lambda cfg=cfg, kw=kw: ctx.tlc_must_hold(B, workers=W, timeout=1500,
+                     note="backlog model, two listeners: a stuck Close has removed its entry (scaled capacities 1/1, %s opens per listener)" % ctx.pick(2, 4), **kw)))
+    bk_expect = {"SSHForwardBacklog_DocUnixCancelFirst.cfg": "NoCloseStuck"}
+    if not q:
+        bk_expect.update({"SSHForwardBacklog_DocUnixCancelFirst2.cfg": "StuckCloseHasRemoved", "SSHForwardBacklog_FindingTwo.cfg": "NoCloseStuck"})
+    for cfg in bk_expect:
+        jobs.append(("bkx:" + cfg, lambda cfg=cfg: ctx.tlc(B, cfg=cfg, workers=4, timeout=900, expect_violation=True, count=False,
+                                                          note="backlog model: counterexample expected", **SMALL)))
+    for cfg in ["SSHForwardBacklog_GenTwoTcp.cfg", "SSHForwardBacklog_GenTwoUnix.cfg", "SSHForwardBacklog_GenTwoMix.cfg",
+                "SSHForwardBacklog_GenOneUnix.cfg"] + ([] if q else ["SSHForwardBacklog_GenOneTcp.cfg"]):
+        jobs.append(("bkgen:" + cfg, lambda cfg=cfg: ctx.tlc_must_hold(B, cfg=cfg, workers=1, timeout=900, count=False,
+                                                                    note="backlog generator at the real capacities 16/16", **SMALL)))
     for mod, cfg, sub in gens:
         jobs.append(("gen:" + cfg, (lambda mod=mod, cfg=cfg, sub=sub: ctx.tlc_must_hold(
             mod, cfg_text=_cfg(cfg, **sub), workers=1, timeout=1500, count=False, note="generator %s %s" % (cfg, sub), **SMALL))))
@@ -147,6 +171,10 @@ def run(ctx):
             raise vlib.Infra("SSHForward_Old/%s: expected the model of the current code to violate %s, TLC says %r" % (cfg, inv, r.violated))
     if res["sharp:LostReject"].violated != "R1_Decided":
         raise vlib.Infra("SSHForward_LostReject: expected R1_Decided to be violated, TLC says %r" % res["sharp:LostReject"].violated)
+    for cfg, inv in bk_expect.items():
+        if res["bkx:" + cfg].violated != inv:
+            raise vlib.Infra("%s: expected %s to be violated, TLC says %r" % (cfg, inv, res["bkx:" + cfg].violated))
+    ctx.extra["c37_backlog_model_counterexamples"] = dict(bk_expect)
     ctx.extra["c37_old_model_counterexamples"] = {c: v for c, v in old_expect.items()}
     if "cov" in res:
         z = _zero_cov(res["cov"])
@@ -204,6 +232,23 @@ def run(ctx):
     else:
         ctx.notes.append("the counterexamples of SSHForward_Old do not reproduce on this tree; %d/%d schedules match SSHForward's prediction at every step"
                          % (ex.get("c37_conform_new_model", 0), len(cases) - n_old))
+    # ---- 3c: backlog histories at the real capacities (2 listeners x 20 un-accepted opens, 1 x 40; Close in every order)
+    bcases, bseen = [], set()
+    for k, r in res.items():
+        if k.startswith("bkgen:"):
+            if not r.traces:
+                raise vlib.Infra("backlog generator %s produced no histories" % k)
+            for c in r.traces:
+                key = json.dumps(c, sort_keys=True)
+                if key not in bseen:
+                    bseen.add(key); bcases.append(c)
+    ctx.log("replaying %d backlog histories" % len(bcases))
+    rb = ctx.go_test("c37", "TestBacklog", cases=bcases, timeout=1500)
+    ctx.absorb(rb)
+    bx = rb.get("extra") or {}
+    for kind in ("tcp", "unix"):
+        if not bx.get("c37_backlog_closes_with_read_loop_blocked_" + kind):
+            raise vlib.Infra("no backlog history reached 'mux.loop blocked on incomingChannels' before a Close of a %s listener" % kind)
     # ---- 4: concurrent stress
     r2 = ctx.go_test("c37", "TestStress", timeout=1500, race=False)
     ctx.absorb(r2)
@@ -218,6 +263,9 @@ def _replay(ctx):
     if "case" in d:
         c = dict(d["case"]); c["variant"] = d.get("variant", 0)
         ctx.absorb(ctx.go_test("c37", "TestReplay", cases=[c], timeout=300))
+    elif "backlog_case" in d:
+        c = dict(d["backlog_case"]); c["variant"] = d.get("variant", 0)
+        ctx.absorb(ctx.go_test("c37", "TestBacklog", cases=[c], timeout=300))
     elif "stress_plan" in d:
         ctx.absorb(ctx.go_test("c37", "TestStress", timeout=300, env={"C37_STRESS_PLAN": json.dumps(d["stress_plan"])}))
     else:
